@@ -69,6 +69,7 @@ def grad_case(draw):
         c["w"] = draw(st.sampled_from([0.0, 0.3, -0.2]))
     sc["crit"] = c
     sc["dir_seed"] = draw(seed_s)
+    sc["mode"] = draw(st.sampled_from(["train", "eval"]))  # e.g. a custom loop after fit(validation=True) runs in eval mode
     return sc
 
 
@@ -77,6 +78,7 @@ def check_grad(case, ctx):
     deriv, hedger, hedge = objs["derivative"], objs["hedger"], objs["hedge"]
     c = case["crit"]
     hedger.criterion = build_criterion(c)
+    hedger.train(case.get("mode", "train") == "train")
     if c["kind"] == "isoelastic":
         # isoelastic utility needs a positive P&L: the derivative pays 5 less (a user clause)
         deriv.add_clause("shift", lambda d, payoff: payoff - 5.0)
@@ -90,6 +92,12 @@ def check_grad(case, ctx):
     def loss_fn():
         return hedger.criterion(hedger.compute_portfolio(deriv, hedge=hedge), deriv.payoff())
 
+    with torch.no_grad():
+        with ctx.sut("C14/loss"):
+            sample = hedger.compute_portfolio(deriv, hedge=hedge) - deriv.payoff()
+    if not torch.isfinite(sample).all():
+        ctx.cls("skipped:non-finite-sample")  # e.g. a forward-start ratio on a rate that touched zero
+        return
     with ctx.sut("C14/loss"):
         L = loss_fn()
     if not torch.isfinite(L):
@@ -181,7 +189,7 @@ def check_grad(case, ctx):
             break
     state_dep = "prev_hedge" in case["inputs"]
     ctx.nontrivial(used > 0 and gnorm > 1e-8 and (not state_dep or case["model"] == "recurrent"))
-    ctx.cls("crit:" + c["kind"], "model:" + case["model"], "branch:" + ("stepwise" if state_dep else "vectorised"),
+    ctx.cls("mode:" + case.get("mode", "train"), "crit:" + c["kind"], "model:" + case["model"], "branch:" + ("stepwise" if state_dep else "vectorised"),
             "H:%d" % case["n_hedges"], "cost:" + str(case["ul"]["cost"] > 0))
     if used == 0:
         ctx.cls("all-directions-discarded")
@@ -194,28 +202,41 @@ def nograd_case(draw):
     if sc["ul"]["type"] == "VasicekRate":
         sc["ul"]["type"], sc["ul"]["params"] = "BrownianStock", {}
     sc["n_times"] = draw(st.integers(1, 2))
+    sc["crit"] = draw(st.sampled_from(["entropic_rm", "oce", "oce", "es"]))  # OCE owns a trainable parameter
+    sc["mode"] = draw(st.sampled_from(["train", "eval"]))
+    sc["outer_grad"] = draw(st.booleans())
     return sc
 
 
 def check_nograd(case, ctx):
     objs = build_scenario(case)
     deriv, hedger, hedge = objs["derivative"], objs["hedger"], objs["hedge"]
+    crit = case.get("crit", "entropic_rm")
+    if crit == "oce":
+        hedger.criterion = build_criterion({"kind": "oce", "w": 0.1}).to(objs["dtype"])
+    elif crit == "es":
+        hedger.criterion = build_criterion({"kind": "es", "p": 0.5})
+    hedger.train(case.get("mode", "train") == "train")
     has_params = any(p.requires_grad for p in hedger.parameters())
     n, k = case["n_paths"], case["n_times"]
     torch.manual_seed(case["sim_seed"])
+    with torch.set_grad_enabled(case.get("outer_grad", True)):
+        with ctx.sut("C14/evaluation-only"):
+            p = hedger.price(deriv, hedge=hedge, n_paths=n, n_times=k)
+            l0 = hedger.compute_loss(deriv, hedge=hedge, n_paths=n, n_times=k, enable_grad=False)
     with ctx.sut("C14/evaluation-only"):
-        p = hedger.price(deriv, hedge=hedge, n_paths=n, n_times=k)
-        l0 = hedger.compute_loss(deriv, hedge=hedge, n_paths=n, n_times=k, enable_grad=False)
         l1 = hedger.compute_loss(deriv, hedge=hedge, n_paths=n, n_times=k)
         p1 = hedger.price(deriv, hedge=hedge, n_paths=n, n_times=k, enable_grad=True)
     ctx.check(p.grad_fn is None and not p.requires_grad, "C14/price-carries-graph", "price() carries a graph by default")
     ctx.check(l0.grad_fn is None and not l0.requires_grad, "C14/loss-nograd-carries-graph", "compute_loss(enable_grad=False) carries a graph")
     if has_params and torch.isfinite(l1):
         ctx.check(l1.requires_grad, "C14/loss-has-no-graph", "compute_loss() with gradients enabled carries no graph")
-        ctx.check(p1.requires_grad, "C14/price-grad-has-no-graph", "price(enable_grad=True) carries no graph")
+        if crit == "entropic_rm" and any(p_.requires_grad for p_ in hedger.model.parameters()):
+            # (a price found by the default bisection search has no differentiable dependence on the parameters)
+            ctx.check(p1.requires_grad, "C14/price-grad-has-no-graph", "price(enable_grad=True) carries no graph")
     ctx.check(torch.is_grad_enabled(), "C14/grad-mode-leaked", "gradient mode left disabled after an evaluation-only call")
     ctx.nontrivial(has_params)
-    ctx.cls("model:" + case["model"], "n_times:%d" % k)
+    ctx.cls("model:" + case["model"], "n_times:%d" % k, "crit:" + crit, "mode:" + case.get("mode", "train"))
 
 
 META = {
